@@ -117,6 +117,10 @@ class Tacd:
             f = '%s/%s.domain' % (d, name)
             open(f, 'w', encoding='utf-8').write(domain + '\n')
             cmd += ['--domain-file', f]
+        elif domain_via in ('fifo', 'devstdin'):
+            cmd += ['--domain-file', self._special(d, name + '.domain', domain_via, (domain + '\n').encode('utf-8'))]
+            if domain_via == 'devstdin':
+                stdin_data += (domain + '\n').encode('utf-8')
         else:
             stdin_data += (domain + '\n').encode('utf-8')
         if ext_via == 'flag':
@@ -125,6 +129,10 @@ class Tacd:
             f = '%s/%s.ext' % (d, name)
             open(f, 'w').write(ext + '\n')
             cmd += ['--acme-ext-file', f]
+        elif ext_via in ('fifo', 'devstdin'):
+            cmd += ['--acme-ext-file', self._special(d, name + '.ext', ext_via, (ext + '\n').encode())]
+            if ext_via == 'devstdin':
+                stdin_data += (ext + '\n').encode()
         else:
             stdin_data += (ext + '\n').encode()
         if key_type:
@@ -145,6 +153,26 @@ class Tacd:
             self.p.stdin.close()
         except BrokenPipeError:
             pass
+
+    def _special(self, d, fname, how, data):
+        """Value files that are not regular files: a named pipe fed by a writer (what a shell process substitution or a secrets
+        agent hands over), or /dev/stdin."""
+        if how == 'devstdin':
+            return '/dev/stdin'
+        path = '%s/%s.fifo' % (d, fname)
+        os.mkfifo(path)
+        import threading
+
+        def feed():
+            try:
+                fd = os.open(path, os.O_WRONLY)      # blocks until the responder opens its end
+                os.write(fd, data)
+                os.close(fd)
+            except OSError:
+                pass
+        threading.Thread(target=feed, daemon=True).start()
+        self._fifos = getattr(self, '_fifos', []) + [path]
+        return path
 
     def target(self):
         return self.listen if self.listen.startswith('unix:') else self.listen
@@ -193,6 +221,13 @@ class Tacd:
             self.p.kill()
             self.p.wait()
         self.err.close()
+        # a writer still waiting for a reader that never came is released
+        for f in getattr(self, '_fifos', []):
+            try:
+                fd = os.open(f, os.O_RDONLY | os.O_NONBLOCK)
+                os.close(fd)
+            except OSError:
+                pass
         return rc
 
     def stderr_text(self):
